@@ -230,13 +230,20 @@ def run(db, rep, tier):
             continue
         stats["header-field pairs decided"] += 1
         # an explicit `if (v > K) throw` in the setter narrows the representable values
+        # (or the same test from the other side: `if (v <= K) store; else throw`)
+        NEGOP = {">": "<=", ">=": "<", "<=": ">", "<": ">="}
         for asm in pre_assumed:
+            cmp_ = None
             if isinstance(asm, tuple) and asm[0] == "not" and isinstance(asm[1], tuple) and asm[1][:2] == ("x", "cmp"):
-                op, lhs, rhs = asm[1][2], asm[1][3], asm[1][4]
+                cmp_ = (NEGOP.get(asm[1][2]), asm[1][3], asm[1][4])          # holds: NOT (lhs op rhs)
+            elif isinstance(asm, tuple) and asm[:2] == ("x", "cmp"):
+                cmp_ = (asm[2], asm[3], asm[4])                              # holds: lhs op rhs
+            if cmp_ is not None and cmp_[0] in ("<=", "<"):
+                op, lhs, rhs = cmp_
                 kv = bp.BV(list(rhs)).value()
-                if kv is not None and op in (">", ">=") and all(b == ("p", i) for i, b in enumerate(lhs[:w])) \
+                if kv is not None and all(b == ("p", i) for i, b in enumerate(lhs[:w])) \
                         and all(b == 0 for b in lhs[w:]):
-                    lim = kv if op == ">" else kv - 1
+                    lim = kv if op == "<=" else kv - 1
                     if 0 <= lim and ((lim + 1) & lim) != 0 and lim.bit_length() <= w:
                         rep.violation("R2-no-truncation", key + ":threshold", site,
                                       "the range check accepts 0..%d: not a whole number of bits - values up to %d fit the field but are "
